@@ -147,6 +147,18 @@ func init() {
 					}
 				}
 			}
+			// format-specific settings that carry a name or version of their own (archlinux.pkgbase, ipk.abi_version,
+			// rpm.summary/group ...): the file name and the metadata keep naming the package
+			for _, f := range Formats {
+				for _, rel := range []string{"", "4"} {
+					c := baseMeta()
+					c.Name, c.Release = "libfoo", rel
+					c.ArchPkgbase, c.IPKABI, c.RPMGroup, c.RPMSummary = "foo-suite", "1", "System/Libraries", "foo library"
+					if !yield(C15Case{Part: "name", Format: f, Cfg: c}) {
+						return
+					}
+				}
+			}
 			// a platform other than linux (deb, rpm and ipk take one): the name and the metadata state the same architecture
 			for _, f := range []string{"deb", "rpm", "ipk"} {
 				for _, plat := range []string{"darwin", "kfreebsd", "linux"} {
